@@ -1,1 +1,504 @@
-(* placeholder *)
+(* Event-level abstraction of the SESSION ROLES of bevy_sync during a host promotion.
+
+   Rust: /repo/src/server/mod.rs      client_connected, server_connected, server_disconnected,
+                                      server_promoted_is_ready (OnEnter(ServerState::Connected)),
+                                      promote_to_host_event_reader
+         /repo/src/server/receiver.rs Message::NewHost (server.disconnect, relay, deferred create_client)
+         /repo/src/client/mod.rs      set_client_to_connecting, verify_client_connected,
+                                      set_client_to_disconnected
+         /repo/src/client/receiver.rs Message::PromoteToHost, Message::NewHost
+         /repo/src/networking/mod.rs  ONE RenetClient and ONE RenetServer object per App, for ever;
+                                      create_client / create_server make transports only.
+   Frame-level model: theories/Sync/Model.v  n_srv_transport, n_cli_transport, n_clients, n_status,
+         n_sticky_disconnect, t_promo, s_server, s_client, promote_reader, client_received /
+         server_received (MPromote, MNewHost), CStartServer, CStartClientTo, CRemove*Transport,
+         client_connected, verify_client_connected, state_transition, the five state systems.
+
+   One event = one atomic step of one peer (a handler run, a state system together with the
+   StateTransition that publishes its NextState) or one renet notification.  Events of different
+   peers interleave freely.  Inside one peer the only ordering facts kept are those the frame
+   structure forces (they are guards, each one justified where it is written):
+     - resource_added / resource_removed are edges, seen by the run condition of the NEXT frame
+       (fields srv_added, srv_removed, cli_added, cli_removed); a removal edge is always observed
+       before a later insertion is;
+     - client_connected runs in every frame in which the server gate is open and drains the
+       ServerEvents of that frame, whereas ClientState needs a frame boundary to change.
+
+   renet 0.0.16 facts used (read in the sources of renet / renetcode):
+     - RenetClient status Disconnected is absorbing: disconnect(), disconnect_due_to_transport()
+       (kick packet from the server, netcode time-out) all end there; set_connecting/set_connected
+       "do nothing if the client is disconnected. A disconnected client must be reconstructed".
+       bevy_sync never reconstructs the RenetClient.  => field [sticky].
+     - RenetServer::disconnect(c): c leaves clients_id()/connected_clients() at once, the
+       ClientDisconnected event is produced by the next update.
+     - a server learns that a client went away by itself only from the disconnect packet or by
+       time-out  => nondeterministic event [ETimeout]; the client transport that is dropped in
+       the same frame in which RenetClient::disconnect() was called never sends that packet.
+
+   Everything is executable. *)
+From Coq Require Import NArith List Lia.
+From stdpp Require Import gmap list.
+From RecordUpdate Require Import RecordSet.
+Import RecordSetNotations.
+
+Definition peer := N.
+
+Inductive sstate := SDisconnected | SConnected.            (* ServerState *)
+Inductive cstate := CDisconnected | CConnecting | CConnected.  (* ClientState *)
+Inductive pmsg :=
+| Promote               (* Message::PromoteToHost *)
+| NewHost (p : peer)    (* Message::NewHost { params of p } *)
+| ReqInit.              (* Message::RequestInitialSync (only its emission matters here) *)
+
+Global Instance sstate_eq_dec : EqDecision sstate. Proof. solve_decision. Defined.
+Global Instance cstate_eq_dec : EqDecision cstate. Proof. solve_decision. Defined.
+Global Instance pmsg_eq_dec : EqDecision pmsg. Proof. solve_decision. Defined.
+
+Record ppeer := PPeer {
+  (* server side *)
+  hosting : bool;                  (* NetcodeServerTransport present *)
+  srv_state : sstate;              (* ServerState *)
+  srv_added : bool;                (* resource_added::<NetcodeServerTransport> not yet evaluated *)
+  srv_removed : bool;              (* resource_removed::<NetcodeServerTransport> not yet evaluated *)
+  clients : list peer;             (* RenetServer::clients_id() *)
+  srv_events : list (bool * peer); (* ServerEvents not yet read by client_connected: (true,c) =
+                                      ClientConnected c, (false,c) = ClientDisconnected c *)
+  (* client side *)
+  client_of : option peer;         (* NetcodeClientTransport present, and its target *)
+  cli_state : cstate;              (* ClientState *)
+  cli_added : bool;                (* resource_added::<NetcodeClientTransport> not yet evaluated *)
+  cli_removed : bool;              (* resource_removed::<NetcodeClientTransport> not yet evaluated *)
+  link_up : bool;                  (* RenetClient::is_connected() *)
+  sticky : bool;                   (* the RenetClient object is Disconnected for ever *)
+  (* tracker *)
+  flag : bool                      (* SyncTrackerRes::host_promotion_in_progress *)
+}.
+Global Instance eta_ppeer : Settable _ :=
+  settable! PPeer <hosting; srv_state; srv_added; srv_removed; clients; srv_events;
+                   client_of; cli_state; cli_added; cli_removed; link_up; sticky; flag>.
+Global Instance ppeer_eq_dec : EqDecision ppeer. Proof. solve_decision. Defined.
+
+(* [up !! (c,h)]: reliable ordered traffic client c -> host h; [down !! (h,c)]: host h -> client c.
+   Head = oldest.  Empty channels are not stored (states are compared with =). *)
+Record pstate := PState {
+  ps : gmap peer ppeer;
+  up : gmap (peer * peer) (list pmsg);
+  down : gmap (peer * peer) (list pmsg)
+}.
+Global Instance pstate_eq_dec : EqDecision pstate. Proof. solve_decision. Defined.
+
+Inductive pevent :=
+| EPromote (h c : peer)      (* application: PromoteToHostEvent{c} on h, read by promote_to_host_event_reader *)
+| EDeliverDown (h c : peer)  (* c's client poll handles the oldest message of h -> c *)
+| EDeliverUp (c h : peer)    (* h's server poll handles the oldest message of c -> h *)
+| ESrvUp (p : peer)          (* server_connected, StateTransition, OnEnter(Connected): server_promoted_is_ready *)
+| ESrvDown (p : peer)        (* server_disconnected + StateTransition *)
+| ECliConnecting (p : peer)  (* set_client_to_connecting + StateTransition *)
+| EVerify (p : peer)         (* verify_client_connected (successful) + StateTransition *)
+| ECliDown (p : peer)        (* set_client_to_disconnected + StateTransition *)
+| ENotify (h : peer)         (* client_connected handles the oldest ServerEvent *)
+| EConnect (c : peer)        (* renet: the handshake of c's transport with its target completes *)
+| ELinkDown (c : peer)       (* renet: c's RenetClient learns that its connection is gone (kick / time-out) *)
+| ETimeout (h c : peer).     (* renet: server h learns that c is gone (disconnect packet / time-out) *)
+Global Instance pevent_eq_dec : EqDecision pevent. Proof. solve_decision. Defined.
+
+(* the application's input; everything else happens by itself, sooner or later *)
+Definition internal (e : pevent) : bool := match e with EPromote _ _ => false | _ => true end.
+
+(* ---------- channels --------------------------------------------------------------------------- *)
+
+Definition chan (M : gmap (peer * peer) (list pmsg)) (a b : peer) : list pmsg := default [] (M !! (a, b)).
+Definition setchan (M : gmap (peer * peer) (list pmsg)) (a b : peer) (l : list pmsg) :=
+  match l with [] => delete (a, b) M | _ => <[(a, b) := l]> M end.
+Definition push (M : gmap (peer * peer) (list pmsg)) (a b : peer) (m : pmsg) := <[(a, b) := chan M a b ++ [m]]> M.
+
+Definition setp (s : pstate) (p : peer) (x : ppeer) : pstate := PState (<[p := x]> (ps s)) (up s) (down s).
+Definition push_up (s : pstate) (c h : peer) (m : pmsg) : pstate := PState (ps s) (push (up s) c h m) (down s).
+Definition push_down (s : pstate) (h c : peer) (m : pmsg) : pstate := PState (ps s) (up s) (push (down s) h c m).
+(* the connection c -> h is gone: what was in flight on it is lost *)
+Definition drop_link (s : pstate) (c h : peer) : pstate :=
+  PState (ps s) (delete (c, h) (up s)) (delete (h, c) (down s)).
+Definition drop_link_of (s : pstate) (c : peer) (t : option peer) : pstate :=
+  match t with Some h => drop_link s c h | None => s end.
+(* repeat_except_for_client / send to each of [dsts] *)
+Definition relay (s : pstate) (h : peer) (dsts : list peer) (m : pmsg) : pstate :=
+  foldr (fun d s => push_down s h d m) s dsts.
+
+(* ---------- gates -------------------------------------------------------------------------------- *)
+
+Definition is_sconn (x : sstate) : bool := match x with SConnected => true | _ => false end.
+Definition is_cconn (x : cstate) : bool := match x with CConnected => true | _ => false end.
+Definition is_cconnecting (x : cstate) : bool := match x with CConnecting => true | _ => false end.
+Definition is_cdisc (x : cstate) : bool := match x with CDisconnected => true | _ => false end.
+Definition is_nil {A} (l : list A) : bool := match l with [] => true | _ => false end.
+
+(* .run_if(resource_exists::<NetcodeServerTransport>).run_if(in_state(ServerState::Connected)) *)
+Definition srv_gate (x : ppeer) : bool := hosting x && is_sconn (srv_state x).
+(* .run_if(resource_exists::<NetcodeClientTransport>).run_if(in_state(ClientState::Connected)), towards h *)
+Definition cli_gate (x : ppeer) (h : peer) : bool := bool_decide (client_of x = Some h) && is_cconn (cli_state x).
+
+Definition without (c : peer) (l : list peer) : list peer := filter (fun d => d <> c) l.
+
+(* ---------- one event ---------------------------------------------------------------------------- *)
+
+Definition step (s : pstate) (e : pevent) : option pstate :=
+  match e with
+  | EPromote h c =>
+      (* promote_to_host_event_reader: server.send_message(c, PromoteToHost) *)
+      match ps s !! h, ps s !! c with
+      | Some x, Some _ =>
+          if srv_gate x && bool_decide (c ∈ clients x) then Some (push_down s h c Promote) else None
+      | _, _ => None
+      end
+  | EDeliverDown h c =>
+      match ps s !! h, ps s !! c with
+      | Some _, Some y =>
+          if cli_gate y h && link_up y then
+            match chan (down s) h c with
+            | [] => None
+            | m :: rest =>
+                let s1 := PState (ps s) (up s) (setchan (down s) h c rest) in
+                match m with
+                | Promote =>
+                    (* deferred closure: insert_resource(create_server), flag := true.
+                       (create_server on a peer that already hosts would panic on the UDP bind:
+                       outside this abstraction, modelled as an overwrite) *)
+                    Some (setp s1 c (y <| hosting := true |>
+                                       <| srv_added := if hosting y then srv_added y else true |>
+                                       <| flag := true |>))
+                | NewHost h' =>
+                    (* client.disconnect(); cmd.remove_resource::<NetcodeClientTransport>();
+                       cmd.insert_resource(create_client(h')); flag := true.  Removal and insertion
+                       happen in ONE flush: resource_removed never fires, ClientState stays as it is;
+                       the new transport is paired with the disconnected RenetClient. *)
+                    Some (drop_link (setp s1 c (y <| sticky := true |> <| link_up := false |>
+                                                  <| client_of := Some h' |> <| cli_added := true |>
+                                                  <| flag := true |>)) c h)
+                | ReqInit => Some s1
+                end
+            end
+          else None
+      | _, _ => None
+      end
+  | EDeliverUp c h =>
+      match ps s !! c, ps s !! h with
+      | Some _, Some x =>
+          if srv_gate x && bool_decide (c ∈ clients x) then
+            match chan (up s) c h with
+            | [] => None
+            | m :: rest =>
+                let s1 := PState (ps s) (setchan (up s) c h rest) (down s) in
+                match m with
+                | Promote => Some s1      (* "server is already host, no operation to do" *)
+                | ReqInit => Some s1      (* answers with a snapshot: not a role change *)
+                | NewHost h' =>
+                    (* server.disconnect(c); repeat_except_for_client(c, NewHost h'); deferred:
+                       flag := true; insert_resource(create_client(h')) -- an insertion over an
+                       existing resource is not "added" (bevy_ecs ResourceData::insert) *)
+                    let others := without c (clients x) in
+                    let x' := x <| clients := others |> <| srv_events := srv_events x ++ [(false, c)] |>
+                                <| flag := true |> <| client_of := Some h' |>
+                                <| cli_added := if client_of x then cli_added x else true |>
+                                <| link_up := false |> in
+                    Some (relay (drop_link (drop_link_of (setp s1 h x') h (client_of x)) c h) h others (NewHost h'))
+                end
+            end
+          else None
+      | _, _ => None
+      end
+  | ESrvUp p =>
+      (* server_connected.run_if(in_state(Disconnected)).run_if(resource_added::<NetcodeServerTransport>);
+         the edge is consumed by the evaluation whatever the state is; a pending removal edge is
+         older and is seen first.  OnEnter(Connected): server_promoted_is_ready
+         .run_if(resource_exists::<NetcodeClientTransport>) sends NewHost(self) upstream. *)
+      match ps s !! p with
+      | Some x =>
+          if srv_added x && negb (srv_removed x) then
+            let x1 := x <| srv_added := false |> in
+            match srv_state x with
+            | SConnected => Some (setp s p x1)
+            | SDisconnected =>
+                let s1 := setp s p (x1 <| srv_state := SConnected |>) in
+                Some (match client_of x with Some h => push_up s1 p h (NewHost p) | None => s1 end)
+            end
+          else None
+      | None => None
+      end
+  | ESrvDown p =>
+      match ps s !! p with
+      | Some x => if srv_removed x then Some (setp s p (x <| srv_removed := false |> <| srv_state := SDisconnected |>))
+                  else None
+      | None => None
+      end
+  | ECliConnecting p =>
+      (* set_client_to_connecting.run_if(resource_added::<NetcodeClientTransport>).run_if(in_state(Disconnected)).
+         Guard: the ClientState changes at the next frame boundary at the earliest, and by then
+         client_connected (same frame as the insertion's successor) has drained the ServerEvents. *)
+      match ps s !! p with
+      | Some x =>
+          if cli_added x && negb (cli_removed x) && (negb (srv_gate x) || is_nil (srv_events x)) then
+            Some (setp s p (x <| cli_added := false |>
+                              <| cli_state := if is_cdisc (cli_state x) then CConnecting else cli_state x |>))
+          else None
+      | None => None
+      end
+  | EVerify p =>
+      (* verify_client_connected: client.is_connected(); ClientState := Connected;
+         flag ? flag := false : RequestInitialSync *)
+      match ps s !! p with
+      | Some x =>
+          match client_of x with
+          | Some h =>
+              if is_cconnecting (cli_state x) && link_up x then
+                if flag x then Some (setp s p (x <| cli_state := CConnected |> <| flag := false |>))
+                else Some (push_up (setp s p (x <| cli_state := CConnected |>)) p h ReqInit)
+              else None
+          | None => None
+          end
+      | None => None
+      end
+  | ECliDown p =>
+      match ps s !! p with
+      | Some x => if cli_removed x then Some (setp s p (x <| cli_removed := false |> <| cli_state := CDisconnected |>))
+                  else None
+      | None => None
+      end
+  | ENotify h =>
+      match ps s !! h with
+      | Some x =>
+          if srv_gate x then
+            match srv_events x with
+            | [] => None
+            | (true, _) :: q =>
+                (* ClientConnected: flag ? remove_resource::<NetcodeClientTransport>, flag := false *)
+                if flag x then
+                  Some (drop_link_of (setp s h (x <| srv_events := q |> <| flag := false |>
+                                                  <| client_of := None |> <| link_up := false |>
+                                                  <| cli_added := false |>
+                                                  <| cli_removed := if client_of x then true else cli_removed x |>))
+                                     h (client_of x))
+                else Some (setp s h (x <| srv_events := q |>))
+            | (false, _) :: q =>
+                (* ClientDisconnected: connected_clients() == 0 && flag ? disconnect_all,
+                   remove_resource::<NetcodeServerTransport>, flag := false.  The remaining events of
+                   this run of the system then find flag = false: nothing more happens. *)
+                if is_nil (clients x) && flag x then
+                  Some (setp s h (x <| srv_events := [] |> <| hosting := false |> <| srv_added := false |>
+                                    <| srv_removed := true |> <| flag := false |>))
+                else Some (setp s h (x <| srv_events := q |>))
+            end
+          else None
+      | None => None
+      end
+  | EConnect c =>
+      (* needs a live RenetClient (not sticky) and a server transport at the target *)
+      match ps s !! c with
+      | Some y =>
+          match client_of y with
+          | Some h =>
+              match ps s !! h with
+              | Some x =>
+                  if negb (sticky y) && negb (link_up y) && hosting x && negb (bool_decide (c ∈ clients x))
+                     && negb (bool_decide (c = h)) then
+                    Some (setp (setp s c (y <| link_up := true |>)) h
+                               (x <| clients := clients x ++ [c] |> <| srv_events := srv_events x ++ [(true, c)] |>))
+                  else None
+              | None => None
+              end
+          | None => None
+          end
+      | None => None
+      end
+  | ELinkDown c =>
+      (* kick packet or netcode time-out: RenetClient::disconnect_due_to_transport: absorbing *)
+      match ps s !! c with
+      | Some y =>
+          match client_of y with
+          | Some h =>
+              match ps s !! h with
+              | Some x =>
+                  if link_up y && (negb (hosting x) || negb (bool_decide (c ∈ clients x))) then
+                    Some (setp s c (y <| link_up := false |> <| sticky := true |>))
+                  else None
+              | None => None
+              end
+          | None => None
+          end
+      | None => None
+      end
+  | ETimeout h c =>
+      match ps s !! h, ps s !! c with
+      | Some x, Some y =>
+          if hosting x && bool_decide (c ∈ clients x) && negb (bool_decide (client_of y = Some h) && link_up y) then
+            Some (drop_link (setp s h (x <| clients := without c (clients x) |>
+                                         <| srv_events := srv_events x ++ [(false, c)] |>)) c h)
+          else None
+      | _, _ => None
+      end
+  end.
+
+Fixpoint run (s : pstate) (tr : list pevent) : option pstate :=
+  match tr with
+  | [] => Some s
+  | e :: tr => match step s e with Some s' => run s' tr | None => None end
+  end.
+
+(* ---------- initial sessions -------------------------------------------------------------------- *)
+
+Definition host : peer := 0%N.
+Definition client_ids (n : nat) : list peer := N.of_nat <$> seq 1 n.
+
+Definition idle_host (cs : list peer) : ppeer :=
+  PPeer true SConnected false false cs [] None CDisconnected false false false false false.
+Definition idle_client (h : peer) : ppeer :=
+  PPeer false SDisconnected false false [] [] (Some h) CConnected false false true false false.
+
+(* host 0 with the connected clients 1..n, everybody in its Connected state, nothing in flight *)
+Definition session (n : nat) : pstate :=
+  PState (list_to_map ((host, idle_host (client_ids n)) :: ((fun c => (c, idle_client host)) <$> client_ids n))) ∅ ∅.
+
+(* ---------- stability ---------------------------------------------------------------------------- *)
+
+Definition peers_of (s : pstate) : list peer := (map_to_list (ps s)).*1.
+
+Definition events1 (p : peer) : list pevent :=
+  [ESrvUp p; ESrvDown p; ECliConnecting p; EVerify p; ECliDown p; ENotify p; EConnect p; ELinkDown p].
+Definition events2 (a b : peer) : list pevent := [EDeliverDown a b; EDeliverUp a b; ETimeout a b].
+(* every internal event over the peers of s *)
+Definition events_of (s : pstate) : list pevent :=
+  let P := peers_of s in
+  (P ≫= events1) ++ (P ≫= fun a => P ≫= events2 a).
+
+(* no internal event is enabled: the session will not move again unless the application promotes *)
+Definition stable (s : pstate) : Prop := forall e, internal e = true -> step s e = None.
+Definition stableb (s : pstate) : bool := forallb (fun e => match step s e with None => true | Some _ => false end) (events_of s).
+Definition enabled (s : pstate) : list pevent := filter (fun e => is_Some (step s e)) (events_of s).
+
+(* ---------- observations ------------------------------------------------------------------------- *)
+
+Definition getp (s : pstate) (p : peer) : option ppeer := ps s !! p.
+Definition hosts (s : pstate) : list peer := (filter (fun kx => hosting kx.2 = true) (map_to_list (ps s))).*1.
+Definition no_traffic (s : pstate) : Prop := up s = ∅ /\ down s = ∅.
+
+(* role of a peer, for readable examples: (hosting, ServerState, clients, target, ClientState, link, sticky, flag) *)
+Definition role (x : ppeer) := (hosting x, srv_state x, clients x, client_of x, cli_state x, link_up x, sticky x, flag x).
+Definition roles (s : pstate) : list (peer * _) := prod_map id role <$> map_to_list (ps s).
+
+(* a peer that is nothing but the host of exactly the clients cs *)
+Definition pure_host (x : ppeer) (cs : list peer) : Prop :=
+  hosting x = true /\ srv_state x = SConnected /\ srv_added x = false /\ srv_removed x = false /\
+  clients x = cs /\ srv_events x = [] /\
+  client_of x = None /\ cli_state x = CDisconnected /\ cli_added x = false /\ cli_removed x = false /\
+  link_up x = false /\ flag x = false.
+(* a peer that is nothing but a connected client of h, with a RenetClient that is alive *)
+Definition pure_client (x : ppeer) (h : peer) : Prop :=
+  hosting x = false /\ srv_state x = SDisconnected /\ srv_added x = false /\ srv_removed x = false /\
+  clients x = [] /\ srv_events x = [] /\
+  client_of x = Some h /\ cli_state x = CConnected /\ cli_added x = false /\ cli_removed x = false /\
+  link_up x = true /\ sticky x = false /\ flag x = false.
+Global Instance pure_host_dec x cs : Decision (pure_host x cs). Proof. unfold pure_host. apply _. Defined.
+Global Instance pure_client_dec x h : Decision (pure_client x h). Proof. unfold pure_client. apply _. Defined.
+
+(* two-peer session in which [h] hosts and [c] is its connected client, nothing pending anywhere *)
+Definition handed_over (s : pstate) (h c : peer) : Prop :=
+  (exists x y, ps s = {[ h := x; c := y ]} /\ h <> c /\ pure_host x [c] /\ pure_client y h) /\ no_traffic s.
+Definition handed_overb (s : pstate) (h c : peer) : bool :=
+  match ps s !! h, ps s !! c with
+  | Some x, Some y =>
+      bool_decide (ps s = {[ h := x; c := y ]}) && bool_decide (h <> c) && bool_decide (pure_host x [c])
+      && bool_decide (pure_client y h) && bool_decide (up s = ∅) && bool_decide (down s = ∅)
+  | _, _ => false
+  end.
+
+(* the S8 outcome for client c: ClientState Connected, a client transport, a dead RenetClient *)
+Definition stranded (x : ppeer) : Prop :=
+  hosting x = false /\ sticky x = true /\ link_up x = false /\ cli_state x = CConnected /\
+  is_Some (client_of x) /\ cli_removed x = false.
+Global Instance stranded_dec x : Decision (stranded x). Proof. unfold stranded. apply _. Defined.
+
+(* ---------- termination measure ------------------------------------------------------------------
+   Every pending thing has a weight larger than the sum of what handling it can create.
+   n = number of peers (a NewHost received by a host is relayed to fewer than n clients). *)
+Definition w_link (x : ppeer) : nat :=
+  match client_of x with
+  | None => 0
+  | Some _ => if link_up x then 1 else if sticky x then 0 else 7
+  end.
+Definition w_peer (n : nat) (x : ppeer) : nat :=
+  (if srv_added x then 14 + 4 * n else 0) + (if srv_removed x then 1 else 0)
+  + 3 * length (clients x) + 2 * length (srv_events x)
+  + w_link x + (if cli_added x then 3 else 0) + (if is_cconnecting (cli_state x) then 2 else 0)
+  + (if cli_removed x then 1 else 0).
+Definition w_up (n : nat) (m : pmsg) : nat := match m with NewHost _ => 13 + 4 * n | _ => 1 end.
+Definition w_down (n : nat) (m : pmsg) : nat := match m with Promote => 15 + 4 * n | NewHost _ => 4 | ReqInit => 1 end.
+Definition sum_list (l : list nat) : nat := foldr plus 0 l.
+Definition measure (s : pstate) : nat :=
+  let n := length (map_to_list (ps s)) in
+  sum_list ((fun kx => w_peer n kx.2) <$> map_to_list (ps s))
+  + sum_list ((fun kl => sum_list (w_up n <$> kl.2)) <$> map_to_list (up s))
+  + sum_list ((fun kl => sum_list (w_down n <$> kl.2)) <$> map_to_list (down s)).
+
+(* ---------- exhaustive exploration (used by reflection in PromotionProofs.v) ---------------------- *)
+
+Definition succs (s : pstate) : list pstate := omap (step s) (events_of s).
+
+Definition inb (s : pstate) (R : list pstate) : bool := bool_decide (s ∈ R).
+
+(* depth-first closure of [todo] under internal events; None = out of fuel *)
+Fixpoint explore (fuel : nat) (todo visited : list pstate) : option (list pstate) :=
+  match fuel with
+  | O => None
+  | S fuel =>
+      match todo with
+      | [] => Some visited
+      | s :: todo => if inb s visited then explore fuel todo visited
+                     else explore fuel (succs s ++ todo) (s :: visited)
+      end
+  end.
+
+(* R is closed under internal events, every such event decreases the measure, and every stable
+   state of R satisfies good *)
+Definition checkb (good : pstate -> bool) (R : list pstate) : bool :=
+  forallb (fun s =>
+    forallb (fun e => match step s e with
+                      | None => true
+                      | Some s' => inb s' R && (measure s' <? measure s)
+                      end) (events_of s)
+    && (negb (stableb s) || good s)) R.
+
+(* ---------- example runs ---------------------------------------------------------------------------- *)
+Local Open Scope N_scope.
+
+(* one client: the hand-over as the code performs it *)
+Definition ex_one_client : list pevent :=
+  [EPromote 0 1; EDeliverDown 0 1; ESrvUp 1; EDeliverUp 1 0; ENotify 0; ESrvDown 0; ECliConnecting 0;
+   EConnect 0; ENotify 1; ECliDown 1; EVerify 0; EDeliverUp 0 1].
+Example ex_one_client_runs :
+  (fun s => (roles s, stableb s, handed_overb s 1 0)) <$> run (session 1) ex_one_client
+  = Some ([(0, (false, SDisconnected, [], Some 1, CConnected, true, false, false));
+           (1, (true, SConnected, [0], None, CDisconnected, false, false, false))], true, true).
+Proof. vm_compute. reflexivity. Qed.
+
+(* the same with the kick notice reaching peer 1's RenetClient before its transport is removed
+   (what happens on a real network): the hand-over succeeds, peer 1's RenetClient is dead *)
+Definition ex_one_client_kicked : list pevent :=
+  [EPromote 0 1; EDeliverDown 0 1; ESrvUp 1; EDeliverUp 1 0; ELinkDown 1; ENotify 0; ESrvDown 0; ECliConnecting 0;
+   EConnect 0; ENotify 1; ECliDown 1; EVerify 0; EDeliverUp 0 1].
+Example ex_one_client_kicked_runs :
+  (fun s => (roles s, stableb s)) <$> run (session 1) ex_one_client_kicked
+  = Some ([(0, (false, SDisconnected, [], Some 1, CConnected, true, false, false));
+           (1, (true, SConnected, [0], None, CDisconnected, false, true, false))], true).
+Proof. vm_compute. reflexivity. Qed.
+
+(* two clients (S8): peer 2 obeys NewHost(1): RenetClient::disconnect(), transports swapped in one flush *)
+Definition ex_two_clients : list pevent :=
+  [EPromote 0 1; EDeliverDown 0 1; ESrvUp 1; EDeliverUp 1 0; ENotify 0; ECliConnecting 0;
+   EDeliverDown 0 2; ECliConnecting 2;
+   ELinkDown 1; EConnect 0; ENotify 1; ECliDown 1; EVerify 0;
+   ETimeout 0 2; ENotify 0].
+Example ex_two_clients_runs :
+  (fun s => (roles s, stableb s, hosts s)) <$> run (session 2) ex_two_clients
+  = Some ([(0, (true, SConnected, [], Some 1, CConnected, true, false, false));
+           (1, (true, SConnected, [0], None, CDisconnected, false, true, false));
+           (2, (false, SDisconnected, [], Some 1, CConnected, false, true, true))], true, [0; 1]).
+Proof. vm_compute. reflexivity. Qed.
